@@ -58,6 +58,7 @@ type FuncResult struct {
 	Violations   []*interp.Violation `json:"violations"`
 	Witnesses    [][]uint64          `json:"witnesses"`
 	Forks        int                 `json:"forks"`
+	BoundCuts    int                 `json:"bound_cuts"`
 	RewriteChk   int                 `json:"rewrite_checks"`
 	WallS        float64             `json:"wall_s"`
 	Error        string              `json:"error,omitempty"`
@@ -167,6 +168,7 @@ func RunJob(j *Job) *JobResult {
 		fr.Obligations, fr.ByRewriting, fr.BySolver = st.Obligations, st.ByRewriting, st.BySolver
 		fr.Inconclusive, fr.InconReasons, fr.AssertIDs = st.Inconclusive, st.InconReasons, st.AssertIDs
 		fr.Forks, fr.RewriteChk = st.Forks, st.RewriteChecks
+		fr.BoundCuts = st.BoundCuts
 		for _, k := range eng.VOrder {
 			fr.Violations = append(fr.Violations, eng.Viol[k])
 		}
